@@ -370,18 +370,28 @@ fn kind_of(e: &(dyn std::error::Error + 'static)) -> String
 	format!("other[{top}]")
 }
 
-fn observe(p: &Project, dir: &PathBuf, fl: &Flat, names: &[String]) -> Observed
+fn observe(p: &Project, dir: &PathBuf, fl: &Flat, names: &[String]) -> Observed {observe_roots(p, dir, fl, names, &[0])}
+
+/// `roots`: the files handed to `Context::assemble` at top level, one after the other, on ONE Context
+fn observe_roots(p: &Project, dir: &PathBuf, fl: &Flat, names: &[String], roots: &[usize]) -> Observed
 {
 	std::fs::create_dir_all(dir).unwrap();
 	for i in 0..p.files.len() {std::fs::write(dir.join(format!("f{i}.asm")), p.text(i)).unwrap();}
-	let root = dir.join("f0.asm");
-	let data = std::fs::read(&root).unwrap();
 	let res = guarded(||
 	{
 		let directives = DirectiveList::generate();
 		let mut ctx = Context::new(&Arm6M, &directives);
-		drop(ctx.assemble(data.as_ref(), root.clone()));
+		let mut between_ok = true;
+		for r in roots
+		{
+			let root = dir.join(format!("f{r}.asm"));
+			let data = std::fs::read(&root).unwrap();
+			drop(ctx.assemble(data.as_ref(), root.clone()));
+			// between two top-level files no file is current
+			between_ok &= !ctx.has_curr_file();
+		}
 		let mut o = Observed::default();
+		if !between_ok {o.diags.push((0, "file-current-between-top-level-files".to_owned()));}
 		if let Err(e) = ctx.close_segment()
 		{
 			o.diags.push((0, format!("close[{e}]")));
@@ -1333,6 +1343,274 @@ fn table_api(cx: &mut Cx)
 	cx.report.hit_n("constant-table API: random sequences", n as u64);
 }
 
+// ------------------------------------------------------------------------------------------------
+// HISTORIES: several top-level files assembled one after the other on one Context (public API; `trias` only ever makes one
+// call). By the scope rules a top-level file has no includer: it starts from an empty local table; what earlier files made
+// global (`.export`, `.global`) is reachable — through `.import` only; their never-exported locals are gone, so importing one
+// is an error and exporting / declaring such a name again is fine. Input: `hist <project encoding>` (every file is a root).
+
+fn flatten_hist(p: &Project) -> Flat
+{
+	let mut fl = Flat{ops: Vec::new(), uses: Vec::new(), defs: BTreeMap::new()};
+	let mut addr = BASE;
+	for (file, f) in p.files.iter().enumerate()
+	{
+		fl.ops.push("en:0".to_owned());
+		for (i, s) in f.iter().enumerate()
+		{
+			let tag = tag_of(file, i);
+			match s
+			{
+				St::Const(n, v) => {fl.ops.push(format!("co:{n}:{v}:{tag}")); fl.defs.insert(tag, (n.clone(), *v));},
+				St::Global(n) => fl.ops.push(format!("gl:{n}:{tag}")),
+				St::Import(n) => fl.ops.push(format!("im:{n}:{tag}")),
+				St::Export(n) => fl.ops.push(format!("xp:{n}:{tag}")),
+				St::Use(n, sp) => {fl.ops.push(format!("us:{n}:{tag}")); fl.uses.push((tag, addr, *sp)); addr += sp.size();},
+				St::Label(..) | St::Include(..) => unreachable!("histories hold neither labels nor includes"),
+			}
+		}
+		fl.ops.push("ex".to_owned());
+	}
+	fl.ops.push("fi".to_owned());
+	fl
+}
+
+/// what the rules demand of a history: values of the uses (tag -> value), the final global table, and the first statement that
+/// must be diagnosed (if any; the generator puts it into the last file, nothing after it is judged)
+struct HistRef {values: BTreeMap<u64, i64>, globals: BTreeMap<String, Option<i64>>, violation: Option<(u64, &'static str)>}
+
+fn reference_hist(p: &Project) -> HistRef
+{
+	let mut globals: BTreeMap<String, Option<i64>> = BTreeMap::new();
+	let mut values = BTreeMap::new();
+	let mut at_finalize: Vec<(u64, String)> = Vec::new();
+	let mut violation = None;
+	'files: for (file, f) in p.files.iter().enumerate()
+	{
+		let mut locals: HashMap<String, Option<i64>> = HashMap::new();
+		// end-of-file work in statement order: (tag, name, is the `.global` copy)
+		let mut tasks: Vec<(u64, String, bool)> = Vec::new();
+		for (i, s) in f.iter().enumerate()
+		{
+			let tag = tag_of(file, i);
+			let bad = |w: &'static str| Some((tag, w));
+			match s
+			{
+				St::Const(n, v) => match locals.get(n) {Some(Some(_)) => {violation = bad("defining a name twice in one file"); break 'files;}, _ => {locals.insert(n.clone(), Some(*v));}},
+				St::Export(n) => match (locals.get(n), globals.get(n))
+				{
+					(Some(Some(_)), Some(Some(_))) => {violation = bad("exporting a name that is already global"); break 'files;},
+					(Some(Some(v)), _) => {globals.insert(n.clone(), Some(*v));},
+					_ => {violation = bad("exporting a name without a value in this file"); break 'files;},
+				},
+				St::Import(n) => match globals.get(n)
+				{
+					None => {violation = bad("importing a name no earlier file made global"); break 'files;},
+					Some(g) => {if locals.contains_key(n) {violation = bad("importing a name the file already has"); break 'files;} locals.insert(n.clone(), *g);},
+				},
+				St::Global(n) =>
+				{
+					if globals.contains_key(n) {violation = bad("declaring a name global twice"); break 'files;}
+					match locals.get(n).copied()
+					{
+						Some(Some(v)) => {globals.insert(n.clone(), Some(v));},
+						_ => {globals.insert(n.clone(), None); locals.entry(n.clone()).or_insert(None); tasks.push((tag, n.clone(), true));},
+					}
+				},
+				St::Use(n, _) => match locals.get(n) {Some(Some(v)) => {values.insert(tag, *v);}, _ => tasks.push((tag, n.clone(), false))},
+				St::Label(..) | St::Include(..) => unreachable!(),
+			}
+		}
+		for (tag, n, copy) in tasks
+		{
+			match (locals.get(&n).copied(), copy)
+			{
+				(Some(Some(v)), true) => {globals.insert(n, Some(v));},
+				(Some(Some(v)), false) => {values.insert(tag, v);},
+				(Some(None), false) => at_finalize.push((tag, n)),
+				(_, true) => {if violation.is_none() {violation = Some((tag, "declaring a name global that never gets a value"));}},
+				(None, false) => {if violation.is_none() {violation = Some((tag, "using a name that is defined nowhere in the file"));}},
+			}
+		}
+		if violation.is_some() {break;}
+	}
+	if violation.is_none()
+	{
+		for (tag, n) in at_finalize
+		{
+			match globals.get(&n) {Some(Some(v)) => {values.insert(tag, *v);}, _ => {violation = Some((tag, "using a declared name that never gets a value")); break;}}
+		}
+	}
+	HistRef{values, globals, violation}
+}
+
+/// distinct, in range of `.du32`, never the placeholder pattern
+fn hist_value(serial: u64, rng: &mut Rng) -> i64
+{
+	match rng.below(12) {0 => 0, 1 => u32::MAX as i64, _ => 100_000 + serial as i64}
+}
+
+fn gen_history(rng: &mut Rng) -> Project
+{
+	let nfiles = 2 + rng.below(2) as usize;
+	let mut files: Vec<Vec<St>> = Vec::new();
+	// what the generator knows: globals with a value, names that earlier files kept local
+	let mut global: Vec<String> = Vec::new();
+	let mut gone_local: Vec<String> = Vec::new();
+	let pool = ["a", "b", "c", "d", "e", "tmp", "secret"];
+	let mut serial = 0u64;
+	for k in 0..nfiles
+	{
+		let last = k + 1 == nfiles;
+		let mut f: Vec<St> = Vec::new();
+		let mut local: Vec<String> = Vec::new();      // valued here
+		let mut declared: Vec<String> = Vec::new();
+		let mut declared_here: Vec<String> = Vec::new();   // made global by `.global` in this file (the copy happens at the end of the file)
+		for _ in 0..2 + rng.below(6)
+		{
+			serial += 1;
+			let fresh: Vec<&str> = pool.iter().copied().filter(|n| !local.iter().any(|l| l == n) && !declared.iter().any(|l| l == n)).collect();
+			match rng.below(12)
+			{
+				0 | 1 | 2 => if let Some(n) = fresh.first().map(|_| *rng.pick(&fresh)) {f.push(St::Const(n.to_owned(), hist_value(serial, rng))); local.push(n.to_owned());},
+				3 | 4 => if !local.is_empty() {let n = rng.pick(&local).clone(); f.push(St::Use(n, Sp::Du32));},
+				5 =>
+				{
+					// export: a local that is not global yet — also one whose name an earlier file kept to itself
+					let cands: Vec<String> = local.iter().filter(|n| !global.contains(n)).cloned().collect();
+					if !cands.is_empty() {let n = rng.pick(&cands).clone(); f.push(St::Export(n.clone())); global.push(n);}
+				},
+				6 =>
+				{
+					// import what an earlier file made global
+					let cands: Vec<String> = global.iter().filter(|n| !local.contains(n) && !declared.contains(n)).cloned().collect();
+					if !cands.is_empty() {let n = rng.pick(&cands).clone(); f.push(St::Import(n.clone())); local.push(n);}
+				},
+				7 =>
+				{
+					// `.global` + definition (before or after), possibly of a name an earlier file kept to itself
+					let cands: Vec<&str> = fresh.iter().copied().filter(|n| !global.iter().any(|g| g == n)).collect();
+					if !cands.is_empty()
+					{
+						let n = if rng.chance(1, 2) && cands.iter().any(|c| gone_local.iter().any(|g| g == c)) {*cands.iter().find(|c| gone_local.iter().any(|g| g == *c)).unwrap()} else {*rng.pick(&cands)};
+						let v = hist_value(serial + 500_000, rng);
+						if rng.chance(1, 2) {f.push(St::Const(n.to_owned(), v)); f.push(St::Global(n.to_owned()));}
+						else {f.push(St::Global(n.to_owned())); if rng.chance(1, 2) {f.push(St::Use(n.to_owned(), Sp::Du32));} f.push(St::Const(n.to_owned(), v));}
+						local.push(n.to_owned());
+						global.push(n.to_owned());
+						declared_here.push(n.to_owned());
+					}
+				},
+				8 =>
+				{
+					// forward use of a constant of this file
+					if let Some(n) = fresh.first().map(|_| *rng.pick(&fresh)) {f.push(St::Use(n.to_owned(), Sp::Du32)); f.push(St::Const(n.to_owned(), hist_value(serial + 900_000, rng))); local.push(n.to_owned());}
+				},
+				9 if last && k > 0 =>
+				{
+					// the isolation breach itself: import of a name an earlier top-level file never exported (must be diagnosed);
+					// the file ends there
+					let cands: Vec<String> = gone_local.iter().filter(|n| !global.contains(n) && !local.contains(n) && !declared.contains(n)).cloned().collect();
+					if !cands.is_empty() {f.push(St::Import(rng.pick(&cands).clone())); break;}
+				},
+				10 if last =>
+				{
+					// other rule violations, last statement of the history
+					match rng.below(3)
+					{
+						0 if local.iter().any(|l| global.contains(l) && !declared_here.contains(l)) => {let n = local.iter().find(|l| global.contains(l) && !declared_here.contains(l)).unwrap().clone(); f.push(St::Export(n)); break;},
+						1 if !fresh.is_empty() => {f.push(St::Export(rng.pick(&fresh).to_string())); break;},
+						_ => if let Some(n) = local.first().cloned() {f.push(St::Const(n, 5)); break;},
+					}
+				},
+				_ => (),
+			}
+			let _ = &declared;
+			declared.clear();
+		}
+		if f.is_empty() {f.push(St::Const("a".to_owned(), 1)); local.push("a".to_owned());}
+		for n in &local {if !global.contains(n) && !gone_local.contains(n) {gone_local.push(n.clone());}}
+		files.push(f);
+	}
+	Project{files}
+}
+
+fn check_history(cx: &mut Cx, p: &Project, reply: Option<&str>, serial: u64)
+{
+	let input = format!("hist {}", p.encode());
+	let fl = flatten_hist(p);
+	let names = names_of(p);
+	let roots: Vec<usize> = (0..p.files.len()).collect();
+	let obs = observe_roots(p, &cx.work.join(format!("h{}", serial % 16)), &fl, &names, &roots);
+	let imp = canon_obs(&obs);
+	cx.report.case(Some(&imp));
+	cx.report.hit_n("history: top-level files", p.files.len() as u64);
+	if let Some(reply) = reply
+	{
+		let (model, _) = canon_model(reply);
+		cx.report.compare("model.scope.history", &input, &model, &imp);
+	}
+	if let Some(msg) = &obs.panic {cx.report.oracle_fail(input, format!("the real Context panicked: {msg}")); return;}
+	if obs.has_file || obs.diags.iter().any(|d| d.1 == "file-current-between-top-level-files") {cx.report.oracle_fail(input.clone(), "a file is still current after a top-level file ended");}
+	let r = reference_hist(p);
+	let where_ = |tag: u64| format!("f{}.asm:{}", file_of_tag(tag), line_of_tag(tag));
+	match r.violation
+	{
+		None =>
+		{
+			cx.report.hit("history: clean by the rules");
+			let real_diags: Vec<&(u64, String)> = obs.diags.iter().collect();
+			if !real_diags.is_empty() || !obs.final_ok {cx.report.oracle_fail(input.clone(), format!("the scope rules accept the history, the assembler reports {:?} (finalize {})", obs.diags.iter().map(|(t, k)| format!("{} {k}", where_(*t))).collect::<Vec<_>>(), obs.final_ok));}
+			for (tag, v) in &r.values
+			{
+				if obs.values.get(tag).map(|x| *x as i64) != Some(*v) {cx.report.oracle_fail(input.clone(), format!("the use at {} must hold {v}, the image holds {:?}", where_(*tag), obs.values.get(tag)));}
+			}
+			let want: Vec<String> = r.globals.iter().map(|(n, v)| match v {Some(v) => format!("{n}={v}"), None => format!("{n}=?")}).collect();
+			if obs.globals != want {cx.report.oracle_fail(input.clone(), format!("global table after the history is {:?}, the rules give {want:?}", obs.globals));}
+		},
+		Some((tag, what)) =>
+		{
+			cx.report.hit(&format!("history: must diagnose — {what}"));
+			if obs.final_ok || !obs.diags.iter().any(|(t, _)| *t == tag)
+			{
+				cx.report.oracle_fail(input.clone(), format!("{what} at {} must be diagnosed; diagnostics {:?}, finalize ok: {}", where_(tag), obs.diags.iter().map(|(t, k)| format!("{} {k}", where_(*t))).collect::<Vec<_>>(), obs.final_ok));
+			}
+			// what was resolved in earlier files stands
+			for (t, v) in r.values.iter().filter(|(t, _)| file_of_tag(**t) < file_of_tag(tag))
+			{
+				if obs.values.get(t).map(|x| *x as i64) != Some(*v) {cx.report.oracle_fail(input.clone(), format!("the use at {} must hold {v}, the image holds {:?}", where_(*t), obs.values.get(t)));}
+			}
+		},
+	}
+}
+
+fn histories(cx: &mut Cx)
+{
+	let fixed = [
+		// file 1 keeps `secret` to itself and exports `pubv`; file 2 may import `pubv` only
+		"c:secret:7,c:pubv:9,e:pubv,u:secret/m:pubv,u:pubv,c:secret:11,u:secret",
+		"c:secret:7,c:pubv:9,e:pubv/m:secret",
+		// a later file may export / declare a name an earlier file had locally
+		"c:tmp:1,u:tmp/c:tmp:2,e:tmp,u:tmp/m:tmp,u:tmp",
+		"c:tmp:1,u:tmp/g:tmp,u:tmp,c:tmp:2/m:tmp,u:tmp",
+		// a global declared and defined in different statements; used by a later file through import; forward uses
+		"g:a,u:a,c:a:5/u:b,c:b:6,m:a,u:a/c:a:8,u:a",
+		"c:a:1,e:a/c:a:2,e:a",
+		"c:a:1/u:a",
+	];
+	let mut hs: Vec<Project> = fixed.iter().map(|f| Project::decode(f).expect("fixed history")).collect();
+	let n = if cx.thorough() {40_000} else {4_000};
+	for _ in 0..n {let mut r = cx.rng.fork(); hs.push(gen_history(&mut r));}
+	cx.report.hit_n("histories", hs.len() as u64);
+	let mut serial = 0u64;
+	for chunk in hs.chunks(1024)
+	{
+		let lines: Vec<String> = chunk.iter().map(|p| format!("scope run {}", flatten_hist(p).ops.join(" "))).collect();
+		let replies = cx.model.ask_many(&lines);
+		for (p, r) in chunk.iter().zip(replies.iter()) {check_history(cx, p, Some(r), serial); serial += 1;}
+	}
+}
+
 pub fn run(_id: &str, cx: &mut Cx)
 {
 	cx.report.rule = "projects = include trees (depth <= 4, fan-out <= 3, <= 9 files) of .const/label/.global/.import/.export/.include statements and uses, a use being .du32 <name> or an instruction whose operand goes through one of the evaluator arms (SVC, UDF.N, UDF.W, RSBS / MOVS, CMP / B, BKPT / LDRB / LDR literal, LDR reg+offset) with every name confined to a value class encodable in its spellings, written to disk and assembled by the real Context; \
@@ -1341,6 +1619,19 @@ non-trivial = at least one used value or one diagnostic observed; distinct = dis
 	let mut serial = 0u64;
 	if let Some(input) = cx.replay.clone()
 	{
+		if let Some(rest) = input.strip_prefix("hist ")
+		{
+			match Project::decode(rest)
+			{
+				Some(p) if p.files.iter().all(|f| f.iter().all(|s| !matches!(s, St::Include(..) | St::Label(..)))) =>
+				{
+					let reply = cx.model.ask(&format!("scope run {}", flatten_hist(&p).ops.join(" ")));
+					check_history(cx, &p, Some(&reply), 0);
+				},
+				_ => cx.report.oracle_fail(input, "unrecognised replay input"),
+			}
+			return;
+		}
 		if let Some(rest) = input.strip_prefix("table ")
 		{
 			match rest.split(' ').filter(|w| !w.is_empty()).map(TOp::parse).collect::<Option<Vec<TOp>>>()
@@ -1358,6 +1649,7 @@ non-trivial = at least one used value or one diagnostic observed; distinct = dis
 		return;
 	}
 	table_api(cx);
+	histories(cx);
 	let sc = scenarios();
 	cx.report.hit_n("scenario projects", sc.len() as u64);
 	for p in &sc {assert!(p.is_tree(), "scenario is not a tree: {}", p.encode());}
